@@ -220,7 +220,7 @@ impl Property for C20 {
         "C20"
     }
     fn rule(&self) -> String {
-        "exhaustive over the finite vocabularies: every item Analysis::completion offers in the four contexts (file level `c|`, type position `class Foo<i|`, value position `class Foo<int a = t|`, after `!` with the trigger character) must lex (server's own lexer) to exactly one keyword/type/operator token - never Id or Error -, every file-level keyword must not hit the statement-dispatch error and its minimal statement must parse with zero errors; every operator spelling the lexer accepts after `!` (candidates: all string literals of lexer.rs + the reference operator list) must be offered - after a fresh '!', after a '!' in two value positions, and after a '!' typed directly in front of the operator's own name. Class completion: generated workspaces (1..6 classes with 0..3 template parameters of seven types, each without default or with a type-correct default (literal, ?, operator, an earlier int parameter, a bit or bit range of one); root + included file, redefinitions) x every parent-class position x 0..3 typed characters: labels = exactly the classes of the workspace, one ${n} placeholder per template parameter; the same at a parent-class position appended to generated (SEM) programs, whose classes and parameter counts are known by construction. distinct = vocabulary item spelling / digest of class case; non-trivial = every vocabulary item, class cases with >=2 classes".into()
+        "exhaustive over the finite vocabularies: every item Analysis::completion offers in the four contexts (file level `c|`, type position `class Foo<i|`, value position `class Foo<int a = t|`, after `!` with the trigger character) must lex (server's own lexer) to exactly one keyword/type/operator token - never Id or Error -, every file-level keyword must not hit the statement-dispatch error and its minimal statement must parse with zero errors; every operator spelling the lexer accepts after `!` (candidates: all string literals of lexer.rs + the reference operator list) must be offered - after a fresh '!', after a '!' in two value positions, and after a '!' typed directly in front of the operator's own name. Class completion: generated workspaces (1..6 classes with 0..3 template parameters of seven types, each without default or with a type-correct default (literal, ?, operator, an earlier int parameter, a bit or bit range of one); root + included file, redefinitions) x every parent-class position x 0..3 typed characters: labels = exactly the classes of the workspace, one ${n} placeholder per template parameter; the same at a parent-class position appended to generated (SEM) programs, whose classes and parameter counts are known by construction, asked on the program as opened and again after an edit that moves every include statement. distinct = vocabulary item spelling / digest of class case; non-trivial = every vocabulary item, class cases with >=2 classes".into()
     }
     fn families(&self, ctx: &Ctx) -> Vec<Family> {
         vec![
@@ -338,8 +338,7 @@ impl Property for C20 {
                 let mut files = p.files.clone();
                 files[0].1.push_str("\ndef zz_probe : K");
                 let at0 = files[0].1.len() - 1;
-                let ws = Workspace::new(&files, &files[0].0);
-                let a = ws.analysis();
+                let mut ws = Workspace::new(&files, &files[0].0);
                 let mut want: Vec<(String, usize)> = p
                     .decls
                     .iter()
@@ -347,8 +346,20 @@ impl Property for C20 {
                     .map(|d| (d.name.clone(), p.decls.iter().filter(|t| t.kind == DeclKind::TemplateArg && t.owner == Some(d.id)).count()))
                     .collect();
                 want.sort();
+                // asked twice: on the program as opened, and after an edit that inserts a line at the top
+                // of the root (every include statement moves, no class comes or goes)
+                for round in 0..2 {
+                let shift = if round == 1 {
+                    let edited = format!("// edited\n{}", files[0].1);
+                    let name = files[0].0.clone();
+                    ws.edit_as_root(&name, &edited);
+                    "// edited\n".len()
+                } else {
+                    0
+                };
+                let a = ws.analysis();
                 for typed in 0..=1 {
-                    let items = a.completion(pos(ws.root, at0 + typed), None).unwrap_or_default();
+                    let items = a.completion(pos(ws.root, at0 + shift + typed), None).unwrap_or_default();
                     let mut got: Vec<(String, usize)> = items
                         .iter()
                         .filter(|c| c.kind == CompletionItemKind::Class)
@@ -359,9 +370,10 @@ impl Property for C20 {
                         return Verdict::Fail(Failure::new(
                             "C20.class-completion",
                             "C20.class-completion:generated-program",
-                            format!("generated program, parent-class position at the end of the root ({typed} typed chars): offered {got:?}, classes of the workspace (with parameter counts) {want:?}\n--- root\n{}", files[0].1),
+                            format!("generated program{}, parent-class position at the end of the root ({typed} typed chars): offered {got:?}, classes of the workspace (with parameter counts) {want:?}\n--- root\n{}", if round == 1 { " after a line was inserted at its top" } else { "" }, files[0].1),
                         ));
                     }
+                }
                 }
                 Verdict::pass(want.len() >= 2 && want.iter().any(|w| w.1 > 0))
             }
